@@ -9,10 +9,16 @@ file and on its own output) and
   * correspondence: the output, parsed field by field, equals `WhVerif.C13.unphase` (the function the theorems
     are about) applied to the parsed input; when the CLI raises, the faithful model of HEAD's loop
     (`unphaseCur`) must predict exactly that exception class (this is how F2 is recognised as F2).
+Header (`unphase_header`): the `##` lines of the output equal the Lean model of the header function (`c13.header`: HEAD's
+"remove the first `##phasing` line" and the repaired "remove every one"); independent text oracle: no HP/PQ/PS FORMAT
+definition left, every other input line still there in the same order, and the second application reproduces the first
+output byte for byte (header included).  Input forms: path, stdin (`-`), bgzipped file — same output.
 History cases: a simulated scenario is phased with the real `whatshap phase`; unphase(phased) must give the same
 data lines as unphase(original), and a second unphase must change nothing.
 """
-import collections, concurrent.futures, json, os, re, shutil
+import collections, concurrent.futures, json, os, re, shutil, subprocess
+
+import pysam
 
 from harness.gen import sim
 from harness.gen import c13_vcf as G
@@ -111,16 +117,45 @@ def oracle(in_text, out_text):
     return fails
 
 
-def header_observations(ctx, in_text, out_text):
+def header_oracle(in_text, out_text):
+    """independent of the Lean model: the three FORMAT definitions are gone, every other line (but `##phasing`) is kept in order"""
+    fails = []
     h_in = [l for l in in_text.split("\n") if l.startswith("##")]
     h_out = [l for l in out_text.split("\n") if l.startswith("##")]
-    removable = lambda l: l.startswith("##phasing=") or any(l.startswith(f"##FORMAT=<ID={t},") for t in G.PHASE_TAGS)
-    for l in h_in:
-        if not removable(l) and l not in h_out:
-            ctx.observe("header line of the input missing in the output: " + l[:60])
+    is_def = lambda l: any(l.startswith(f"##FORMAT=<ID={t},") for t in G.PHASE_TAGS)
+    removable = lambda l: l.startswith("##phasing=") or is_def(l)
     for l in h_out:
-        if removable(l):
-            ctx.observe("header still declares phase information: " + l[:40])
+        if is_def(l):
+            fails.append(("the output header still defines a phase tag: " + l[:40], "header-phase-definition-left"))
+    kept_in = [l for l in h_in if not removable(l)]
+    kept_out = [l for l in h_out if not removable(l)]
+    if kept_in != kept_out:
+        lost = [l for l in kept_in if l not in kept_out]
+        new = [l for l in kept_out if l not in kept_in]
+        fails.append((f"header lines other than ##phasing / HP,PQ,PS definitions changed: lost {lost[:3]}, new {new[:3]}"
+                      + ("" if lost or new else " (order)"), "header-other-lines-changed"))
+    return fails
+
+
+F76 = "F76-unphase-not-idempotent-second-phasing-header-line"
+
+
+def run_unphase(overlay, path, text, mode):
+    """`whatshap unphase` on a path, on stdin ('-') or on a bgzipped copy; (rc, stdout, stderr)"""
+    if mode == "gz":
+        gz = path + ".gz"
+        pysam.tabix_compress(path, gz, force=True)
+        path = gz
+    if mode != "stdin":
+        rc, out, err, _ = sim.whatshap(["unphase", path], overlay)
+        return rc, out, err
+    if not os.path.exists(os.path.join(overlay, "whatshap", "__init__.py")):
+        raise RuntimeError("overlay %s disappeared" % overlay)
+    env = dict(os.environ)
+    env["PYTHONPATH"] = overlay
+    env.pop("WHATSHAP_VERIF_TRACE", None)
+    r = subprocess.run([sim.PY, "-m", "whatshap", "unphase", "-"], env=env, input=text, capture_output=True, text=True, timeout=600)
+    return r.returncode, r.stdout, r.stderr
 
 
 def scenario_case(rng):
@@ -173,9 +208,8 @@ def _run(ctx, rng, wd):
 
     pool = concurrent.futures.ThreadPoolExecutor(WORKERS)
 
-    def unphase(path):
-        rc, out, err, _ = sim.whatshap(["unphase", path], ctx.overlay)
-        return rc, out, err
+    def unphase(path, text="", mode="path"):
+        return run_unphase(ctx.overlay, path, text, mode)
 
     # ---- stage 1: prepare inputs (histories: run `whatshap phase`), all CLI work in a small thread pool
     def prepare(idx_case):
@@ -188,6 +222,7 @@ def _run(ctx, rng, wd):
             p = os.path.join(d, "in.vcf")
             open(p, "w").write(text)
             res["inputs"] = [("file", p, text)]
+            res["mode"] = case.get("input", "path")
         else:
             fa, bam, vcf, phased = (os.path.join(d, n) for n in ("ref.fasta", "in.bam", "in.vcf", "phased.vcf"))
             sim.write_fasta(fa, case["fasta"])
@@ -204,8 +239,11 @@ def _run(ctx, rng, wd):
         # unphase every input, then unphase the output again
         res["runs"] = []
         for label, p, text in res["inputs"]:
-            rc, out, err = unphase(p)
-            run = {"label": label, "in_text": text, "rc": rc, "out": out, "err": err}
+            mode = res.get("mode", "path")
+            rc, out, err = unphase(p, text, mode)
+            run = {"label": label, "in_text": text, "rc": rc, "out": out, "err": err, "mode": mode}
+            if mode != "path":
+                run["plain"] = unphase(p)          # the same file given as a path must give the same output
             if rc == 0:
                 p2 = p + ".unphased.vcf"
                 open(p2, "w").write(out)
@@ -230,6 +268,11 @@ def _run(ctx, rng, wd):
     answers = [ctx.model.ask_many([r])[0] for r in reqs]
     for (ci, ri), ans in zip(where, answers):
         results[ci]["runs"][ri]["model"] = ans
+    for res in results:
+        for run in res["runs"]:
+            run["hmodel"] = ctx.model.ask_many([{"op": "c13.header", "lines": G.header_model_lines(run["in_text"])}])[0]
+            if run["rc"] == 0:
+                run["hmodel2"] = ctx.model.ask_many([{"op": "c13.header", "lines": G.header_model_lines(run["out"])}])[0]
 
     # ---- stage 3: judge
     for case, res in zip(cases, results):
@@ -278,13 +321,33 @@ def _run(ctx, rng, wd):
             # oracle
             for what, key in oracle(run["in_text"], run["out"]):
                 ctx.fail(tag + what, case, key=key)
-            header_observations(ctx, run["in_text"], run["out"])
+            for what, key in header_oracle(run["in_text"], run["out"]):
+                ctx.fail(tag + what, case, key=key)
+            # header: correspondence with the model of unphase_header (HEAD: first ##phasing line only; repaired: all)
+            h_out = [l for l in run["out"].split("\n") if l.startswith("##")]
+            hm = run["hmodel"]
+            n_phasing = sum(1 for l in run["in_text"].split("\n") if l.startswith("##phasing="))
+            ctx.dist("phasing_header_lines", min(n_phasing, 3))
+            ctx.dist("input_mode", run.get("mode", "path"))
+            if "error" in hm:
+                ctx.disagree("c13.header", case, "header not accepted by the driver", hm)
+            elif h_out != hm["cur"] and h_out != hm["fix"]:
+                first = next((i for i, (x, y) in enumerate(zip(h_out, hm["cur"])) if x != y), min(len(h_out), len(hm["cur"])))
+                ctx.disagree("c13.header", case, {"first_differing_line": first, "impl": h_out[first:first + 2]},
+                             {"model_HEAD": hm["cur"][first:first + 2], "model_repaired": hm["fix"][first:first + 2]})
+            if run.get("plain") is not None and (run["plain"][0] != 0 or run["plain"][1] != run["out"]):
+                ctx.fail(tag + f"input given as {run['mode']} and as a path give different outputs", case, key="input-form-matters")
             if run.get("rc2") != 0:
                 ctx.fail(tag + "second application of unphase fails: " + err_class(run.get("err2", "")), case, key="second-unphase-raises")
             elif data_lines(run["out2"]) != data_lines(run["out"]):
                 ctx.fail(tag + "unphase is not idempotent: second application changes data lines", case, key="not-idempotent")
             elif run["out2"] != run["out"]:
-                ctx.observe("second application changes only header lines")
+                h2 = [l for l in run["out2"].split("\n") if l.startswith("##")]
+                gone = [l for l in h_out if l not in h2]
+                explained = "error" not in hm and h_out == hm["cur"] and hm["cur"] != hm["fix"] and h2 == run.get("hmodel2", {}).get("cur")
+                ctx.fail(tag + f"unphase is not idempotent: the second application changes the header (removes {gone[:2]}); "
+                               f"unphase_header removes only the first of {n_phasing} ##phasing lines", case,
+                         key=F76 if explained and all(l.startswith("##phasing=") for l in gone) else "not-idempotent-header")
             # correspondence with the specification function of the theorems
             _, _, out_recs = G.parse_vcf_text(run["out"])
             impl = G.model_records(out_recs)
